@@ -52,13 +52,18 @@ def det_check(tier, seed):
                 os.makedirs(os.path.join(d, 'home'))
                 text = ledger_for(rec, seed * 1000 + i * 10 + variant)
                 open(os.path.join(d, 'l.cgt'), 'w').write(text)
+                # the same ledger dealt over three files (the order on the command line is part of the input)
+                ls = text.splitlines()
+                for k in range(3):
+                    open(os.path.join(d, f'p{k + 1}.cgt'), 'w').write('\n'.join(ls[k::3]) + '\n')
                 jobs.append((i, variant, rec, d, text))
         def one(job):
             i, variant, rec, d, text = job
             out, runs = [], 0
             home = os.path.join(d, 'home')
             results = {}
-            for args in (['report', 'l.cgt'], ['report', '--format', 'json', 'l.cgt'], ['parse', 'l.cgt'], ['report', '--year', '2021', 'l.cgt']):
+            for args in (['report', 'l.cgt'], ['report', '--format', 'json', 'l.cgt'], ['parse', 'l.cgt'], ['report', '--year', '2021', 'l.cgt'],
+                         ['parse', 'p3.cgt', 'p1.cgt', 'p2.cgt'], ['report', '--format', 'json', 'p2.cgt', 'p3.cgt', 'p1.cgt'], ['report', 'p1.cgt', 'p2.cgt', 'p3.cgt']):
                 seen = {}
                 for k in range(n_runs):
                     rc, so, se = run(d, home, args)
@@ -128,8 +133,8 @@ def det_check(tier, seed):
     log(f'[replay] MC_Determinism: {len(recs)} key sets, {len(jobs)} ledgers, {executions} cgt-tool runs ({n_runs} fresh processes per command), {len(findings)} deviations')
     cov = {'states': max(m['states'], 1), 'transitions': max(m['transitions'], 1), 'traces_validated_against_impl': executions, 'evaluations': executions,
            'distinct_nontrivial': len(jobs),
-           'rule': 'MC_Determinism.tla: 12 key sets (tickers that are proper prefixes of one another, last-letter neighbours, several disposals per date, 2-4 tax '
-                   'years); TLC checks every comparator is a strict total order on every key set (so any hash order sorts to one output), enumerates every hash '
+           'rule': 'MC_Determinism.tla: 15 key sets (tickers that are proper prefixes of one another, last-letter neighbours, 12-letter fund identifiers equal in '
+                   'their first 8 / 11 letters, several disposals per date, 2-4 tax years; each ledger also dealt over three input files); TLC checks every comparator is a strict total order on every key set (so any hash order sorts to one output), enumerates every hash '
                    'order of the small sites, and shows that a prefix-tie comparator is NOT deterministic; each ledger (lines in seeded non-alphabetical order) is '
                    f'run {n_runs} times per command in fresh processes: outputs must be byte-identical and in the specification\'s canonical order; non-trivial = ledgers',
            'samples': [jobs[0][4], jobs[-1][4][:600]], 'exhaustive': False}
